@@ -727,8 +727,12 @@ class Weaver:
                                                'props': sorted(set(info['props'] or props))})
                     self.rec("T15", rel, s, p, f"closure {name} sha={csha} in {qual}")
                     edits.append((p, cend, rep(call, ctext)))
+                    # the factory is a free function: `Self::X` inside the closure text is spelled with the impl's type name
+                    # there (same item; the factory body is external_body - compiled, never verified - and the pin is taken
+                    # from the original text)
+                    ftext = re.sub(r'\bSelf::', qual.split('::')[0] + '::', ctext) if '::' in qual else ctext
                     factories.append(ins(f"{cid0}:T15[{name}]", props,
-                                         f"\n#[verifier::external_body]\nfn {name}{sig}\n{clauses}\n{{\n    move {ctext}\n}}\n"))
+                                         f"\n#[verifier::external_body]\nfn {name}{sig}\n{clauses}\n{{\n    move {ftext}\n}}\n"))
                 # T17 block hoisting. `@hoist "first" "last" name=vbl_x`: the run of whole statements from the line containing
                 # `first` to the end of the statement containing `last` is replaced by the `call` text (declared replacement,
                 # erasure restores the statements) and becomes, verbatim, the body of a generated `external_body` function
